@@ -4,7 +4,7 @@ import NmVerif.Index.Repeat
 import NmVerif.Index.Concatenate
 /-
   NmVerif.Index.CheckedOps — MODEL of the run-time argument validation of the view constructors that C15 drives with
-  invalid arguments (fixes/C15-*.diff: the constructor returns Nothing where NumPy raises).  Each `…Checked` function
+  invalid arguments (repaired by fixes/C15-*.diff: the constructor returns Nothing where NumPy raises; for transpose the check is proposed only, see fixes/C15-README.md).  Each `…Checked` function
   performs the checks in the order of the C++ and then hands over to the value model of the owning property
   (C03: Index/Transpose, Index/Reshape; C04: Index/Repeat, Index/Concatenate), which is unchanged on valid arguments.
 
